@@ -1303,9 +1303,14 @@ def run(repo, chk, tier):
     other_histogram_sites(repo, chk)
     chk.info("not decided (statistical): acceptance-rejection counts and weight bound (generator/generator.py, config_loader/sample.py, applications.gen_data), "
              "CDF inversion (generator/linear_interpolation.py, interp_nd.py, breit_wigner.py), near-equal bin populations (np.percentile)")
-    from .c20_thin import check_multi_sampling, check_thinning
+    from .c20_thin import check_interp_sampling, check_multi_sampling, check_thinning
 
     check_multi_sampling(repo, chk)
+    check_interp_sampling(repo, chk)
+    # the phase-space generator handed to the toy machinery finds every particle under its own mass (shared with C10)
+    from .c10 import node_order
+
+    node_order(repo, chk)
     # the older statement-level rule T-thin only adds information now: M-sem decides the thinning block by what
     # multi_sampling returns (mask formula with the old bound, applied to the merged earlier events, bound raised)
     real_v = chk.violation
